@@ -15,8 +15,7 @@ type persistentPriorityQueue[T any] struct {
 }
 
 func newPersistentPriorityQueue[T any](w *worker[T, iJob[T]], pq IPersistentPriorityQueue) PersistentPriorityQueue[T] {
-	w.queues.Register(pq)
-
+	// newPriorityQueue registers the queue with the worker
 	return &persistentPriorityQueue[T]{
 		priorityQueue: newPriorityQueue(w, pq),
 	}
